@@ -41,6 +41,9 @@ typedef struct { pair_double *data; size_t n; } vec_dpair;
 typedef struct { size_t n; } vec_string;     /* contents of strings are never inspected */
 #define VEC_MAX ((size_t)1 << 20)            /* object-size limit of the tool, see DESIGN 5 */
 
+/* new T[n]: allocation is assumed to succeed (std::bad_alloc is outside every contract; listed as assumption) */
+static inline void *nix_new_array(size_t n, size_t sz) { void *p = malloc(n * sz); __CPROVER_assume(p != NULL); return p; }
+
 /* exception ghost: which exception (if any) is in flight */
 typedef enum { EXC_NONE = 0, EXC_OutOfBounds, EXC_IncompatibleDimensions, EXC_out_of_range, EXC_runtime_error,
                EXC_invalid_argument, EXC_InvalidFile, EXC_H5Exception, EXC_H5Error, EXC_InvalidUnit, EXC_UnsortedTicks,
@@ -64,6 +67,10 @@ extern double g_w0, g_w1, g_w2, g_w3, g_wp; extern size_t g_wn; extern int g_wm;
 /* vacuity canary: NIX_CANARY(f) expands to an ensures(false) clause only in the job that enforces f
    (the driver passes -DNIX_CANARY_f=...); the clause must FAIL, otherwise the requires are contradictory. */
 #define NIX_CANARY(f) NIX_CANARY_##f
+/* NIX_SEL(f, a, b): a in the job that enforces f's contract, b where f's contract replaces a call.
+   Used for pointer preconditions: __CPROVER_is_fresh when enforcing (allocates the inputs), the much cheaper
+   __CPROVER_r_ok / w_ok validity when the contract is checked at a call site. */
+#define NIX_SEL(f, a, b) NIX_SEL_##f(a, b)
 #include "canary_defaults.h"
 
 #define NIX_THROWS /* marker read by vlib/unit.py: the callee may set nix_exc */
